@@ -28,6 +28,6 @@ for c in "$@"; do
   out=$(cd $ISO/root && VERIF_ROOT=$ISO/root VERIF_EVIDENCE_DIR=$ISO/evidence VERIF_BUDGET_S=$budget $BINDIR/simcheck run "$c" --tier quick 2>&1)
   rc=$?
   v=$(echo "$out" | grep -m1 'violation in run' | sed 's/^\[[A-Z0-9]*\] //' | cut -c1-260)
-  echo "$c rc=$rc $v"
+  echo "$c rc=$rc $v"; [ -z "$v" ] && [ $rc -ne 0 ] && echo "$out" | tail -5
 done
 git -C $ISO/repo checkout -- .
